@@ -119,10 +119,10 @@ OuterSyncLoop:
 
 			// Bump our sync, and march forward
 
-			d.Sync.Synced++
-			err = d.Pegnet.InsertSynced(tx, d.Sync)
+			// the in-memory height is what the API reports: only move it once the block is committed
+			next := &pegnet.BlockSync{Synced: d.Sync.Synced + 1}
+			err = d.Pegnet.InsertSynced(tx, next)
 			if err != nil {
-				d.Sync.Synced--
 				hLog.WithError(err).Errorf("unable to update synced metadata")
 				err = tx.Rollback()
 				if err != nil {
@@ -133,8 +133,10 @@ OuterSyncLoop:
 			}
 
 			err = tx.Commit()
+			if err == nil {
+				d.Sync.Synced = next.Synced
+			}
 			if err != nil {
-				d.Sync.Synced--
 				hLog.WithError(err).Errorf("unable to commit transaction")
 				err = tx.Rollback()
 				if err != nil {
